@@ -625,15 +625,40 @@ func checkWhitespace(t fataler, src string, u unit, wsAt []bool, extraTrailing b
 	}
 }
 
+// twin: a second live css.Parser sitting on custom properties, declarations and nested blocks, stepped between every call
+// on the parser under test and the use of its results (gen.Twin)
+var twin = gen.Twin{New: func() func() bool {
+	p := css.NewParser(parse.NewInputString(":root{--brand: calc( 100% - var( --gap ) ) ;--b:{x:y};color:RED;*zoom:1}@media x{a>b{c:d e}}@import 'x';--w:1"), false)
+	return func() bool { gt, _, _ := p.Next(); _ = p.Values(); return gt != css.ErrorGrammar }
+}}
+
+const cssTail = "x;y:z}d{e:f}"
+
+// newParser builds the parser under test over a caller-owned buffer: half of the inputs are a sub-slice of a larger
+// buffer that continues with style sheet text (gen.Embedded); done() gives the buffer back and checks it
+func newParser(t fataler, src []byte, inline bool) (p *css.Parser, done func()) {
+	in, whole := gen.Embedded(src, cssTail)
+	input := parse.NewInputBytes(in)
+	return css.NewParser(input, inline), func() {
+		input.Restore()
+		if ok, rest := gen.CheckEmbedded(in, whole, cssTail, true); !ok || !bytes.Equal(in, src) {
+			t.Fatalf("parsing %q changed the caller's buffer: %q + %q", src, in, rest)
+		}
+	}
+}
+
 func TestProp_WellFormed(t *testing.T) {
 	ev.Describe("wellformed", "style sheets / inline declaration lists generated from the CSS grammar: at-rules without block (@import, @charset, @namespace, unknown), with declaration block (@font-face, @page), with rule list (@media, @supports, @keyframes, @layer, @document, @-webkit-keyframes, nested at-rules), unknown at-rules with a token block; rulesets with type/class/id/universal/attribute/pseudo selectors, combinators and lists, nested rulesets; declarations with identifier/number/dimension/percentage/string/url/hash/function value mixes, !important, the IE *property hack, custom properties with arbitrary balanced text; top-level comments, CDO/CDC; whitespace/comments at every boundary, random ASCII case of names; oracle: the parser stream equals the generated units (GrammarType sequence, lower-cased name, Values() without whitespace == the component tokens byte for byte, custom property value == exact source text), a whitespace token only where the source has whitespace, never next to the context's punctuation, always between two word-like tokens; the stream ends with ErrorGrammar/io.EOF without a parse error; non-trivial = >= 3 units incl. a Begin/End pair and >= 1 whitespace decision")
 	ev.Check(t, 10000, func(t *rapid.T) {
 		inline := rapid.IntRange(0, 3).Draw(t, "inline") == 0
 		g := genSheet(t, inline)
 		src := g.src.String()
-		p := css.NewParser(parse.NewInputString(src), inline)
+		p, done := newParser(t, []byte(src), inline)
+		defer done()
 		for i := 0; ; i++ {
 			gt, _, data := p.Next()
+			twin.Step()
+			_ = p.Err() // polled after every call: reading the error state must not disturb the parser
 			if gt == css.ErrorGrammar {
 				if p.HasParseError() || p.Err() != io.EOF {
 					t.Fatalf("%q (inline=%v): well-formed input gives %v after %d units", src, inline, p.Err(), i)
@@ -777,7 +802,8 @@ func runAny(t fataler, src []byte, inline bool) (units int, begins int, parseErr
 		}
 		t.Fatalf("%q (inline=%v): %s reports token %v %q, which is not a token of the input in source order (lexer tokens from position %d: %v)", src, inline, what, tt, data, pos, lexed[min(pos, len(lexed)):])
 	}
-	p := css.NewParser(parse.NewInputBytes(append([]byte(nil), src...)), inline)
+	p, done := newParser(t, src, inline)
+	defer done()
 	var stack []css.GrammarType
 	hadParseErr := false
 	for i := 0; ; i++ {
@@ -785,6 +811,8 @@ func runAny(t fataler, src []byte, inline bool) (units int, begins int, parseErr
 			t.Fatalf("%q: parser does not terminate", src)
 		}
 		gt, tt, data := p.Next()
+		twin.Step()
+		_ = p.Err()
 		if gt == css.ErrorGrammar {
 			if p.HasParseError() {
 				hadParseErr = true
